@@ -2,6 +2,7 @@ package props
 
 import (
 	"fmt"
+	"sort"
 	"strings"
 
 	"github.com/freeconf/yang/node"
@@ -31,6 +32,47 @@ func (c18) NumCases(tier string, seed int64) int {
 		return 6000
 	}
 	return 600
+}
+
+// the stores C18 runs against
+type c18store interface {
+	Browser() *node.Browser
+	Snap() (*dp.DNode, error) // content read without the library
+	Problems() []string
+	Describe() string
+}
+
+type c18ref struct{ st *dp.Store }
+
+func (x *c18ref) Browser() *node.Browser   { return x.st.Browser() }
+func (x *c18ref) Snap() (*dp.DNode, error) { return x.st.Root, nil }
+func (x *c18ref) Describe() string         { return "" }
+func (x *c18ref) Problems() []string {
+	p := x.st.Problems
+	x.st.Problems = nil
+	return p
+}
+
+type c18go struct{ g *dp.GoStore }
+
+func (x *c18go) Browser() *node.Browser   { return x.g.Browser() }
+func (x *c18go) Snap() (*dp.DNode, error) { return x.g.Snapshot() }
+func (x *c18go) Problems() []string       { return nil }
+func (x *c18go) Describe() string {
+	var l []string
+	for n, r := range x.g.Repr {
+		l = append(l, n.Name+":"+r)
+	}
+	sort.Strings(l)
+	return "lists " + strings.Join(l, " ")
+}
+
+// signatures of the reference store stay as they were; other stores are named
+func storeSig(name string) string {
+	if name == "reference-store" {
+		return ""
+	}
+	return "/" + name
 }
 
 func dupKeys(d *dp.DNode, path string, out *[]string) {
@@ -67,17 +109,48 @@ func (p c18) Run(c *core.Ctx, idx int) {
 	o.MaxDepth = 2 + r.Intn(3)
 	o.Choices = idx%4 == 0
 	o.KeyTypes = []string{"string", "int32", "int64", "uint8", "uint32", "enumeration", "boolean", "int8", "uint16", "uint64", "int16"}
+	// store under test: the reference store or one of the library's reflection nodes over plain Go values
+	storeKind := (idx / 4) % 5
+	var gm dp.GoMode
+	cmp := dp.CmpOpts{}
+	if storeKind > 0 {
+		gm = dp.GoModes[storeKind-1]
+		o.Types, o.KeyTypes = dp.GoTypes(gm), dp.GoKeyTypes(gm)
+		o.CompoundKeys = gm.Shape == "struct"
+		// a struct field cannot say "unset", so case detection has nothing to go by (IgnoreEmpty would make zero-valued keys unreadable)
+		o.Choices = o.Choices && gm.Shape == "map"
+		o.Defaults = false
+		cmp = dp.CmpOpts{IgnoreListOrder: true, EmptyListIsAbsent: true}
+	}
 	s := dp.GenSchema(r, o)
 	if err := s.Compile(); err != nil {
 		c.R.Inconclusive = "generated schema does not compile: " + head(err.Error(), 300)
 		return
+	}
+	if storeKind > 0 {
+		if why := dp.GoSupports(s, gm); why != "" {
+			c.Count("go_store_schema_outside_domain")
+			return
+		}
 	}
 	do := dp.DefaultData()
 	do.MaxEntries = 2 + r.Intn(4)
 	do.PKid = 0.85
 	t := dp.GenTree(r, s, do)
 	model := t.Clone()
-	target := dp.NewStore(s, t)
+	var target c18store
+	storeName := "reference-store"
+	if storeKind == 0 {
+		target = &c18ref{dp.NewStore(s, t)}
+	} else {
+		target = &c18go{dp.NewGoStore(r, s, gm, t)}
+		storeName = gm.String()
+		if gm.Shape == "struct" {
+			model = dp.ZeroNormalize(model)
+		}
+		dp.DropEmptyLists(model)
+	}
+	c.Count("store_" + storeName)
 	nops := 3 + r.Intn(13)
 	var history []string
 	var lastDeleted *dp.DNode
@@ -217,10 +290,21 @@ func (p c18) Run(c *core.Ctx, idx int) {
 		history = append(history, desc)
 		c.Eval()
 		opName := strings.Fields(desc)[0]
-		c.Shape("%s/%s/%s/depth%d", opName, kind, pos, len(pth))
+		c.Shape("%s/%s/%s/depth%d/%s", opName, kind, pos, len(pth), storeName)
 		c.Count("op_" + opName)
+		snap, snapErr := target.Snap()
+		if storeKind > 0 {
+			if gm.Shape == "struct" {
+				model = dp.ZeroNormalize(model)
+			}
+			dp.DropEmptyLists(model)
+		}
 		wit := func() string {
-			return fmt.Sprintf("history:\n  %s\nschema:\n%sstore before the last step:\n%s\nstore after:\n%s", joinLines(history), s.Yang(), before.Dump(s), target.Root.Dump(s))
+			after := "<unreadable>"
+			if snap != nil {
+				after = snap.Dump(s)
+			}
+			return fmt.Sprintf("store: %s %s\nhistory:\n  %s\nschema:\n%sstore before the last step:\n%s\nstore after:\n%s", storeName, target.Describe(), joinLines(history), s.Yang(), before.Dump(s), after)
 		}
 		sigBase := opName + "/" + kind
 		if pos != "" {
@@ -230,24 +314,30 @@ func (p c18) Run(c *core.Ctx, idx int) {
 			if !plainKeys(pth) {
 				// addressing through keys with reserved characters is C08's business; resync and go on
 				c.Count("skipped_hostile_key_path")
-				model = target.Root.Clone()
+				if snap == nil {
+					return
+				}
+				model = snap.Clone()
 				continue
 			}
-			c.Violate("error/"+sigBase, "%s returned %v\n%s", desc, err, wit())
+			c.Violate("error/"+sigBase+storeSig(storeName), "%s returned %v\n%s", desc, err, wit())
 			return
 		}
-		for _, pr := range target.Problems {
+		for _, pr := range target.Problems() {
 			c.Violate("protocol/"+sigBase, "%s: %s\n%s", desc, pr, wit())
 		}
-		target.Problems = nil
-		if d := dp.Diff(s, model, target.Root, dp.CmpOpts{}); d != "" {
-			c.Violate("result/"+sigBase+"/"+diffClass(d), "%s: store differs from the model:\n%s\n%s", desc, d, wit())
+		if snapErr != nil {
+			c.Violate("store-corrupt/"+sigBase+"/"+storeName, "%s: the Go values no longer denote a tree of the schema: %v\n%s", desc, snapErr, wit())
+			return
+		}
+		if d := dp.Diff(s, model, snap, cmp); d != "" {
+			c.Violate("result/"+sigBase+"/"+diffClass(d)+storeSig(storeName), "%s: store differs from the model:\n%s\n%s", desc, d, wit())
 			return
 		}
 		var dk []string
-		dupKeys(target.Root, "", &dk)
+		dupKeys(snap, "", &dk)
 		if len(dk) > 0 {
-			c.Violate("duplicate-key/"+sigBase, "%s\n%s", dk[0], wit())
+			c.Violate("duplicate-key/"+sigBase+storeSig(storeName), "%s\n%s", dk[0], wit())
 			return
 		}
 		// Find: removed node gone, a sample of remaining nodes reachable under their key
@@ -257,7 +347,7 @@ func (p c18) Run(c *core.Ctx, idx int) {
 			var sel *node.Selection
 			if !c.Guard("Find removed", func() { sel, err = dp.FindSel(b, removed) }) {
 				if sel != nil {
-					c.Violate("find-after-delete/"+sigBase, "Find(%q) still selects the deleted node\n%s", dp.PathString(removed), wit())
+					c.Violate("find-after-delete/"+sigBase+storeSig(storeName), "Find(%q) still selects the deleted node\n%s", dp.PathString(removed), wit())
 				}
 			}
 		}
@@ -273,7 +363,7 @@ func (p c18) Run(c *core.Ctx, idx int) {
 				continue
 			}
 			if err != nil || sel == nil {
-				c.Violate("find-remaining/"+sigBase, "after %s, Find(%q) = %v, %v although the node is present\n%s", desc, dp.PathString(q), sel, err, wit())
+				c.Violate("find-remaining/"+sigBase+storeSig(storeName), "after %s, Find(%q) = %v, %v although the node is present\n%s", desc, dp.PathString(q), sel, err, wit())
 				break
 			}
 		}
